@@ -793,3 +793,15 @@ func SetKeyFn(f func() Hash) {
 		cur.KeyFn = f
 	}
 }
+
+// Absorb makes the running thread causally dependent on a parked partner thread (rendez-vous: the
+// acting side takes the value / the hand-shake from the side that was already waiting).
+func Absorb(p *Thread) {
+	e := cur
+	if e == nil || e.running == nil || e.aborting || p == nil {
+		return
+	}
+	t := e.running
+	t.chain = t.chain.MixH(p.chain).Mix(0xab50)
+	t.vc = joinVC(t.vc, p.vc)
+}
